@@ -276,6 +276,31 @@ def _element_transform():
     return branches, first_text
 
 
+def _cardinalities(classes) -> List[Tuple[str, str, int]]:
+    """how many parts of a kind a constructor insists on, read off its guards and list literals (whatever the locals are
+    called): `Face.__init__` compares the shape of the point array with `(n, 3)` and `len(<edges>)` with `n`;
+    `Operation.__init__` creates `self.side_edges` as a list literal"""
+    out = []
+    init = _method(_class_ast(classes["Face"]), "__init__")
+    shapes = [c.comparators[0].elts[0].value for c in ast.walk(init) if isinstance(c, ast.Compare) and isinstance(c.ops[0], ast.NotEq)
+              and isinstance(c.comparators[0], ast.Tuple) and len(c.comparators[0].elts) == 2
+              and all(isinstance(e, ast.Constant) and isinstance(e.value, int) for e in c.comparators[0].elts)]
+    lens = [c.comparators[0].value for c in ast.walk(init) if isinstance(c, ast.Compare) and isinstance(c.ops[0], ast.NotEq)
+            and isinstance(c.left, ast.Call) and ast.unparse(c.left.func) == "len"
+            and isinstance(c.comparators[0], ast.Constant) and isinstance(c.comparators[0].value, int)]
+    if len(shapes) != 1 or len(lens) != 1:
+        raise ValueError(f"Face.__init__: expected one shape guard and one len() guard, found {shapes} / {lens}")
+    out.append(("Face", "points", int(shapes[0])))
+    out.append(("Face", "edges", int(lens[0])))
+    init = _method(_class_ast(classes["Operation"]), "__init__")
+    lits = [s.value for s in ast.walk(init) if isinstance(s, (ast.Assign, ast.AnnAssign)) and s.value is not None
+            and ast.unparse(s.targets[0] if isinstance(s, ast.Assign) else s.target) == "self.side_edges" and isinstance(s.value, ast.List)]
+    if len(lits) != 1:
+        raise ValueError("Operation.__init__: self.side_edges is not created from one list literal")
+    out.append(("Operation", "side_edges", len(lits[0].elts)))
+    return out
+
+
 def emit_all(emit):
     guard = getattr(emit, "guard", lambda fn, *a, **k: fn(*a, **k))
     classes = _classes()
@@ -305,6 +330,10 @@ def emit_all(emit):
         emit("c09ListCenterFirst", "String", first,
              "what the first statement of the loop over the transformation list assigns (the centre is taken before any part moves)")
 
+    def g_card():
+        emit("c09Cardinality", "List (String × String × Nat)", _cardinalities(classes),
+             "(class, attribute listed in `parts`, how many the constructor insists on): Face guards, Operation's list literal")
+
     # every group is an independent `ast` reading of the current source: one that fails leaves the others in place
-    for g in (g_parts, g_center, g_methods, g_transform):
+    for g in (g_parts, g_center, g_methods, g_transform, g_card):
         guard(g)
